@@ -201,6 +201,9 @@ func runC16(r *Run) {
 						}
 					}
 				}
+				if !okNack {
+					okNack = r.nackThroughMethod(f, ff)
+				}
 				r.R.Check(okNack, P+".fifo.nack", "E13: nack restores append(removed, q.items...) — the failed batch returns to the head in its original order", core.FuncName(f), r.where(f),
 					"a failed batch must be retried before operations queued later", "removed first", "nack does not put the removed prefix in front of the current queue")
 			}
@@ -298,7 +301,38 @@ func runC16(r *Run) {
 				}
 				nBack++
 				pf := rawPathFacts(df, ip.Blocks)
-				if !core.HasFact(pf, "cmp(Writer.cutAndProcess(_, _) != 0)") || !core.HasFact(pf, "ok(Writer.cutAndProcess(_, _))") {
+				nonEmpty := core.HasFact(pf, "cmp(Writer.cutAndProcess(_, _) != 0)")
+				noError := core.HasFact(pf, "ok(Writer.cutAndProcess(_, _))")
+				// the loop may test the results of the previous round's call at its head (`for err == nil && n != 0`):
+				// a merged value all of whose operands are that result of a cutAndProcess call
+				for _, fc := range pf {
+					if fc.Kind == "okany" && len(fc.List) > 0 {
+						// the merged error of several calls, all of them cutAndProcess, is nil
+						all := true
+						for _, t := range fc.List {
+							if t == nil || t.Op != "call" || !core.NameMatches(t.Name, "Writer.cutAndProcess") {
+								all = false
+							}
+						}
+						if all {
+							noError = true
+						}
+					}
+					if fc.Kind != "cmp" || fc.A == nil || fc.B == nil || fc.A.Op != "phi" {
+						continue
+					}
+					ph, isPhi := fc.A.Val.(*ssa.Phi)
+					if !isPhi {
+						continue
+					}
+					if fc.Op == "!=" && fc.B.Name == "0" && phiOfCallResults(ph, "Writer.cutAndProcess", 0, r) {
+						nonEmpty = true
+					}
+					if fc.Op == "==" && fc.B.Name == "nil" && phiOfCallResults(ph, "Writer.cutAndProcess", 2, r) {
+						noError = true
+					}
+				}
+				if !nonEmpty || !noError {
 					okLoop = false
 				}
 			}
@@ -979,4 +1013,100 @@ func (r *Run) checkHandlerErrorsPropagated(P string) {
 	r.R.Check(n >= 6 && len(bad) == 0, P+".handler.errors.propagated", "E8 exit classes: every error return of the operation handler's batch preparation carries the failure of a call it made (or the empty input)", "OperationHandler.PrepareTxnFiles / parseOperations", "pkg/versions/1_0/txnprovider/handler.go",
 		"a batch the handler refuses is put back at the head of the queue and cut again on the next tick: a refusal that depends on the operations themselves (all of them expired, say) repeats for ever and nothing behind them is anchored",
 		fmt.Sprintf("%d error returns, all propagated", n), strings.Join(bad, "; "))
+}
+
+// phiOfCallResults: every operand of the (possibly nested) phi is result idx of a call to the named function.
+func phiOfCallResults(ph *ssa.Phi, name string, idx int, r *Run) bool {
+	n := 0
+	for _, l := range phiLeaves(ph) {
+		ex, ok := l.(*ssa.Extract)
+		if !ok || ex.Index != idx {
+			return false
+		}
+		c, ok := ex.Tuple.(*ssa.Call)
+		if !ok {
+			return false
+		}
+		key, _, _ := r.P.CalleeKey(c.Common())
+		if !core.NameMatches(key, name) {
+			return false
+		}
+		n++
+	}
+	return n > 0
+}
+
+// nackThroughMethod: Remove hands out, as its nack, a method value of a small struct it has just filled (queue and
+// removed items); in that method the store into <queue>.items is append(<removed items>, <queue>.items...), where the
+// two fields are what Remove stored into them.
+func (r *Run) nackThroughMethod(f *ssa.Function, ff *core.FnFacts) bool {
+	for _, b := range f.Blocks {
+		ret, ok := b.Instrs[len(b.Instrs)-1].(*ssa.Return)
+		if !ok || len(ret.Results) < 3 {
+			continue
+		}
+		for _, l := range phiLeaves(core.RetOp(ret, 2)) {
+			for {
+				ct, isCT := l.(*ssa.ChangeType)
+				if !isCT {
+					break
+				}
+				l = ct.X
+			}
+			mc, isMC := l.(*ssa.MakeClosure)
+			if !isMC || len(mc.Bindings) != 1 {
+				continue
+			}
+			wrapper, _ := mc.Fn.(*ssa.Function)
+			if wrapper == nil || !strings.HasSuffix(wrapper.Name(), "$bound") {
+				continue
+			}
+			mo, _ := wrapper.Object().(*types.Func)
+			if mo == nil {
+				continue
+			}
+			m := r.P.SSA.FuncValue(mo)
+			al, isAl := mc.Bindings[0].(*ssa.Alloc)
+			if m == nil || !r.P.IsSubject(m) || len(m.Params) == 0 || !isAl {
+				continue
+			}
+			// what Remove stored into the fields of the receiver struct
+			stored := map[string]string{}
+			for fld, v := range literalFields(al) {
+				stored[fld] = ff.TB.Of(v).String()
+			}
+			mf := r.E.Facts(m, core.Ctx{})
+			recv := "$" + m.Params[0].Name()
+			subst := func(t string) string {
+				// longest field names first is not needed: the field names are distinct words followed by . [ or end
+				for fld, val := range stored {
+					t = strings.ReplaceAll(t, recv+"."+fld, val)
+				}
+				return t
+			}
+			for _, mb := range m.Blocks {
+				for _, ins := range mb.Instrs {
+					st, isSt := ins.(*ssa.Store)
+					if !isSt {
+						continue
+					}
+					fa, isFA := st.Addr.(*ssa.FieldAddr)
+					if !isFA || fieldName(fa) != "items" {
+						continue
+					}
+					c, isC := st.Val.(*ssa.Call)
+					if !isC || !isBuiltin(c, "append") || len(c.Common().Args) != 2 {
+						continue
+					}
+					target := subst(mf.TB.Of(fa.X).String())
+					first := subst(mf.TB.Of(c.Common().Args[0]).String())
+					second := subst(mf.TB.Of(c.Common().Args[1]).String())
+					if target == "$q" && strings.Contains(first, "$q.items[") && second == "$q.items" {
+						return true
+					}
+				}
+			}
+		}
+	}
+	return false
 }
